@@ -599,11 +599,8 @@ func c07R3(c *Check, sr *serverRoles) {
 			// loop head: the nearest dominator block ending in an If from which the call's block is reachable
 			// and which is itself reachable from the call (a loop).
 			b := s.Block()
-			for d := b.Idom(); d != nil; d = d.Idom() {
-				if _, ok := d.Instrs[len(d.Instrs)-1].(*ssa.If); ok && blockReaches(b, d) {
-					heads[d] = true
-					break
-				}
+			if d := loopHeadOf(b); d != nil {
+				heads[d] = true
 			}
 		}
 		if len(heads) == 0 {
@@ -699,7 +696,12 @@ func falseSuccessors(v ssa.Value) []*ssa.BasicBlock {
 func loopHeadOf(b *ssa.BasicBlock) *ssa.BasicBlock {
 	for d := b.Idom(); d != nil; d = d.Idom() {
 		if _, ok := d.Instrs[len(d.Instrs)-1].(*ssa.If); ok && blockReaches(b, d) {
-			return d
+			// natural loop header: has a back edge from a block it dominates
+			for _, p := range d.Preds {
+				if d.Dominates(p) {
+					return d
+				}
+			}
 		}
 	}
 	return nil
